@@ -18,7 +18,6 @@ package muxrun
 
 import (
 	"fmt"
-	"runtime"
 	"strconv"
 	"strings"
 	"sync"
@@ -63,20 +62,7 @@ func RunBeat(line string) (ans string) {
 	}
 	tr := newJrTransport()
 	conn := gocql.VerifC06NewConn(tr, proto, 0, 150*time.Millisecond, nil)
-	waitFor := func(cond func() bool, what string) {
-		start := time.Now()
-		for !cond() {
-			select {
-			case <-tr.notify:
-			case <-time.After(300 * time.Microsecond):
-			}
-			if time.Since(start) > exWatch && !cond() {
-				buf := make([]byte, 1<<20)
-				n := runtime.Stack(buf, true)
-				panic(jrHang{what, string(buf[:n])})
-			}
-		}
-	}
+	waitFor := func(cond func() bool, what string) { exWaitFor(cond, tr.notify, what) }
 	waitFor(tr.drained, "receive loop never started reading")
 	ctl := gocql.VerifC06NewControl(conn)
 	defer conn.Stop()
